@@ -244,9 +244,15 @@ pub fn check(rec: &RunRecord, ops: &[&Op], reg: &Reg, which: &Which, cells: &mut
                     (Some(okv), _) => {
                         cells.hit("c02.outcome|ok");
                         match res.get("ok") {
+                            None if kind == Kind::Query && okv.as_str().map(|t| t.starts_with("<<unserialisable")).unwrap_or(false) => {
+                                cells.hit("c02.query_unencodable");
+                            }
                             None => out.push(Finding::new("C02", "c02.outcome", op.idx, format!("{}: {} returned Ok but the chain received {}", d.cid(), hid, res))),
                             Some(got) => {
-                                if kind == Kind::Query {
+                                if kind == Kind::Query && okv.as_str().map(|t| t.starts_with("<<unserialisable")).unwrap_or(false) {
+                                    // the handler's value has no JSON encoding: the caller must get an error
+                                    out.push(Finding::new("C02", "c02.query_value", op.idx, format!("{}: query {} returned a value without a JSON encoding but the caller received {}", d.cid(), hid, got)));
+                                } else if kind == Kind::Query {
                                     let parsed: Value = got.as_str().and_then(|s| serde_json::from_str(s).ok()).unwrap_or(Value::Null);
                                     if parsed != *okv {
                                         out.push(Finding::new("C02", "c02.query_value", op.idx, format!("{}: query {} returned {} but the caller received {}", d.cid(), hid, okv, got)));
